@@ -127,7 +127,10 @@ check(
     "Scripted sessions (generated, and the repository's golden tests) are executed in a baseline world and in worlds "
     "that differ in PYTHONHASHSEED (fresh interpreters), salted id-hashes of Sym/proc/Config/Memory objects, symbol "
     "counter offset, prefix history (other sessions, failed operations, a crashed compilation, unrelated and same-named "
-    "definitions) and test order; transcripts (returned/raised, printed procedures, C and header text) must be identical.",
+    "definitions) and test order; transcripts (returned/raised, printed procedures, C and header text) must be identical. "
+    "Directed process histories add subjects in which two procedures share argument symbols or statement objects "
+    "(add_assertion, partial_eval, cut_loop) and discarded compilations / rejected scheduling calls on one of them "
+    "precede the scheduling and compilation of the other.",
     "Outcome differences caused by z3 answering `unknown` in one world are not counted.",
     "deterministic simulation: controlled nondeterminism seams (hash salts, hash seeds, symbol offsets, prefix histories) with transcript comparison",
     "DESIGN.md §3 C18",
